@@ -165,14 +165,17 @@ pub fn run(ctx: &Ctx) -> Value {
     let mut rng = Rng::new(ctx.seed);
     let mut c = Counts { show: 0, rt: 0, name: 0, skipped: 0 };
 
-    // --- dates
-    let ds = dates(&mut rng, ctx.t(300, 20_000));
+    // --- dates (lattice, digit-pair witnesses, then a sequence in which consecutive values share a component: one-entry memos)
+    let mut ds = dates(&mut rng, ctx.t(300, 20_000));
+    ds.extend(pair_witnesses().iter().map(|x| x.date()));
+    ds.extend(memo_sequence());
     for d in &ds {
         emit(&mut tw, &mut c, "date", json!({"n": dn(*d)}), &|| d.to_string(), &|| format!("{:?}", d),
              &|s| s.parse::<NaiveDate>().ok().map(|b| json!({"n": dn(b)})), true);
     }
     // --- times of day
-    let ts = times(&mut rng, ctx.t(300, 20_000));
+    let mut ts = times(&mut rng, ctx.t(300, 20_000));
+    ts.extend(pair_witnesses().iter().map(|x| x.time()));
     for t in &ts {
         emit(&mut tw, &mut c, "time", json!({"t": tod(*t)}), &|| t.to_string(), &|| format!("{:?}", t),
              &|s| s.parse::<NaiveTime>().ok().map(tod), true);
@@ -186,6 +189,8 @@ pub fn run(ctx: &Ctx) -> Value {
     for _ in 0..ctx.t(400, 20_000) {
         ndts.push(rng.pick(&ds).and_time(*rng.pick(&ts)));
     }
+    ndts.extend(pair_witnesses());
+    for (i, d) in memo_sequence().into_iter().enumerate() { ndts.push(d.and_time(ft[i % 2 * 5])); }
     for v in &ndts {
         emit(&mut tw, &mut c, "ndt", json!({"v": ndt(*v)}), &|| v.to_string(), &|| format!("{:?}", v),
              &|s| s.parse::<NaiveDateTime>().ok().map(ndt), true);
